@@ -69,6 +69,8 @@ def _episode(rng, world, layer_sets, n_rules=None, laws=True):
             rules = rng.sample(rules, n_rules)
         for r in rules:
             rid = f"R{k}"; k += 1
+            if len(r["objs"]) > 1 and rng.random() < 0.5:      # object layers named in another order than defined
+                r = dict(r, objs=list(reversed(r["objs"])))
             items.append({"op": "leval", "a": 0, "rid": rid, "layers": layers, "rule": r,
                           "objs_as_list": rng.random() < 0.6})
             if not laws:
@@ -87,7 +89,8 @@ def _episode(rng, world, layer_sets, n_rules=None, laws=True):
                     m = dict(l, kind=("regex" if l["kind"] == "names" else "names"), listed=list(reversed(l["listed"])))
                     alt.append(m)
                 r2 = dict(r, objs=list(reversed(r["objs"])))
-                items.append({"op": "leval", "a": 0, "rid": rid + "s", "layers": list(reversed(alt)), "rule": r2})
+                items.append({"op": "leval", "a": 0, "rid": rid + "s", "rule": r2,
+                              "layers": list(reversed(alt)) if rng.random() < 0.5 else alt})
                 items.append({"op": "law", "law": "same", "as": [0, 0], "rids": [rid, rid + "s"]})
     return {"driver": "layers", "world": w.json(), "render": "ident", "items": items}
 
